@@ -33,26 +33,31 @@ type C10Plan struct {
 	Occur int    `json:"occur"`
 	Kind  string `json:"kind"` // none | mut | garbage | bomb | http
 	Ord   int    `json:"ord"`
+	// Wire: the position is an encrypted message and the corruption is applied
+	// to its COSE wrapper on the wire instead of to the plaintext inside.
+	Wire bool `json:"wire,omitempty"`
 }
 
 type c10Pos struct {
 	Proto, Phase string
 	Msg, Occur   int
+	Wire         bool
 }
 
 var c10Positions = []c10Pos{
-	{"DI", "req", 10, 0}, {"DI", "resp", 11, 0}, {"DI", "req", 12, 0}, {"DI", "resp", 13, 0},
-	{"TO0", "req", 20, 0}, {"TO0", "resp", 21, 0}, {"TO0", "req", 22, 0}, {"TO0", "resp", 23, 0},
-	{"TO1", "req", 30, 0}, {"TO1", "resp", 31, 0}, {"TO1", "req", 32, 0}, {"TO1", "resp", 33, 0},
-	{"TO2", "req", 60, 0}, {"TO2", "resp", 61, 0}, {"TO2", "req", 62, 0}, {"TO2", "resp", 63, 0}, {"TO2", "req", 64, 0}, {"TO2", "resp", 65, 0},
-	{"TO2", "req", 66, 0}, {"TO2", "resp", 67, 0}, {"TO2", "req", 68, 0}, {"TO2", "resp", 69, 0}, {"TO2", "req", 68, 2}, {"TO2", "resp", 69, 2},
-	{"TO2", "req", 70, 0}, {"TO2", "resp", 71, 0},
+	{"DI", "req", 10, 0, false}, {"DI", "resp", 11, 0, false}, {"DI", "req", 12, 0, false}, {"DI", "resp", 13, 0, false},
+	{"TO0", "req", 20, 0, false}, {"TO0", "resp", 21, 0, false}, {"TO0", "req", 22, 0, false}, {"TO0", "resp", 23, 0, false},
+	{"TO1", "req", 30, 0, false}, {"TO1", "resp", 31, 0, false}, {"TO1", "req", 32, 0, false}, {"TO1", "resp", 33, 0, false},
+	{"TO2", "req", 60, 0, false}, {"TO2", "resp", 61, 0, false}, {"TO2", "req", 62, 0, false}, {"TO2", "resp", 63, 0, false}, {"TO2", "req", 64, 0, false}, {"TO2", "resp", 65, 0, false},
+	{"TO2", "req", 66, 0, false}, {"TO2", "resp", 67, 0, false}, {"TO2", "req", 68, 0, false}, {"TO2", "resp", 69, 0, false}, {"TO2", "req", 68, 2, false}, {"TO2", "resp", 69, 2, false},
+	{"TO2", "req", 70, 0, false}, {"TO2", "resp", 71, 0, false},
+	{"TO2", "resp", 65, 0, true}, {"TO2", "req", 66, 0, true}, {"TO2", "req", 68, 0, true}, {"TO2", "resp", 69, 0, true}, {"TO2", "req", 70, 0, true}, {"TO2", "resp", 71, 0, true},
 }
 
 // inTunnel reports whether the position is only reachable as plaintext inside
 // the encrypted tunnel (mutated by a rogue-but-authenticated peer).
 func (p c10Pos) inTunnel() bool {
-	return p.Proto == "TO2" && ((p.Phase == "req" && p.Msg >= 66) || (p.Phase == "resp" && p.Msg >= 65))
+	return !p.Wire && p.Proto == "TO2" && ((p.Phase == "req" && p.Msg >= 66) || (p.Phase == "resp" && p.Msg >= 65))
 }
 
 var c10HTTPFaults = []string{"no-content-length", "huge-content-length", "short-content-length", "bad-auth-scheme", "garbage-token", "other-protocol-token",
@@ -130,19 +135,19 @@ func (p *c10) Prepare(t *testing.T, tier string, seed uint64) {
 					stride = 3 // quick: the second family is sampled
 				}
 				for m := fi % stride; m < n; m += stride {
-					plans = append(plans, C10Plan{Seed: base.Seed, Key: f.Key, Enc: f.Enc, Proto: proto, Phase: pos.Phase, Msg: pos.Msg, Occur: pos.Occur, Kind: "mut", Ord: m})
+					plans = append(plans, C10Plan{Seed: base.Seed, Key: f.Key, Enc: f.Enc, Proto: proto, Phase: pos.Phase, Msg: pos.Msg, Occur: pos.Occur, Wire: pos.Wire, Kind: "mut", Ord: m})
 				}
 				ng, nb := 6, 10
 				if tier == "thorough" {
 					ng = 40
 				}
 				for g := 0; g < ng; g++ {
-					plans = append(plans, C10Plan{Seed: base.Seed, Key: f.Key, Enc: f.Enc, Proto: proto, Phase: pos.Phase, Msg: pos.Msg, Occur: pos.Occur, Kind: "garbage", Ord: g})
+					plans = append(plans, C10Plan{Seed: base.Seed, Key: f.Key, Enc: f.Enc, Proto: proto, Phase: pos.Phase, Msg: pos.Msg, Occur: pos.Occur, Wire: pos.Wire, Kind: "garbage", Ord: g})
 				}
 				for g := 0; g < nb; g++ {
-					plans = append(plans, C10Plan{Seed: base.Seed, Key: f.Key, Enc: f.Enc, Proto: proto, Phase: pos.Phase, Msg: pos.Msg, Occur: pos.Occur, Kind: "bomb", Ord: g})
+					plans = append(plans, C10Plan{Seed: base.Seed, Key: f.Key, Enc: f.Enc, Proto: proto, Phase: pos.Phase, Msg: pos.Msg, Occur: pos.Occur, Wire: pos.Wire, Kind: "bomb", Ord: g})
 				}
-				if !pos.inTunnel() {
+				if !pos.inTunnel() && !pos.Wire {
 					for hi := range c10HTTPFaults {
 						plans = append(plans, C10Plan{Seed: base.Seed, Key: f.Key, Enc: f.Enc, Sql: hi%2 == 1 && fi == 0, Proto: proto, Phase: pos.Phase, Msg: pos.Msg, Occur: pos.Occur, Kind: "http", Ord: hi})
 					}
@@ -324,7 +329,7 @@ func c10Run(env *Env, pl *C10Plan, collect map[c10Pos][]byte, baseAlloc uint64) 
 	rec := &ModRecorder{}
 	o1 := s.Nodes["owner1"]
 	o1.Mods = &ModSM{Factory: PingFactory(o1, rec, [][]byte{[]byte("first-owner-message"), bytes.Repeat([]byte{0x5a}, 300)})}
-	pos := c10Pos{pl.Proto, pl.Phase, pl.Msg, pl.Occur}
+	pos := c10Pos{pl.Proto, pl.Phase, pl.Msg, pl.Occur, pl.Wire}
 	var ms0, msWin runtime.MemStats
 	winClosed := false
 	tampered := false
@@ -394,13 +399,16 @@ func c10Run(env *Env, pl *C10Plan, collect map[c10Pos][]byte, baseAlloc uint64) 
 		k := fmt.Sprintf("%s/%d", ev.Phase, mt)
 		n := occ[k]
 		occ[k]++
-		p2 := c10Pos{pl.Proto, ev.Phase, mt, n}
+		p2 := c10Pos{pl.Proto, ev.Phase, mt, n, false}
+		if _, enc := tunnelMsg(ev); enc {
+			p2.Wire = true
+		}
 		if collect != nil && !p2.inTunnel() {
 			if _, ok := collect[p2]; !ok && protoOf(mt) == pl.Proto {
 				collect[p2] = append([]byte(nil), ev.Body...)
 			}
 		}
-		if pl.Kind == "none" || tampered || pos.inTunnel() || ev.Phase != pl.Phase || mt != pl.Msg || n != pl.Occur || protoOf(mt) != pl.Proto {
+		if pl.Kind == "none" || tampered || pos.inTunnel() || ev.Phase != pl.Phase || mt != pl.Msg || n != pl.Occur || protoOf(mt) != pl.Proto || p2.Wire != pl.Wire {
 			return
 		}
 		if pl.Kind == "http" {
@@ -426,7 +434,7 @@ func c10Run(env *Env, pl *C10Plan, collect map[c10Pos][]byte, baseAlloc uint64) 
 		}
 		if collect != nil {
 			mt.collect = func(m uint8, occur int, b []byte) {
-				k := c10Pos{"TO2", "req", int(m), occur}
+				k := c10Pos{"TO2", "req", int(m), occur, false}
 				if m == 68 {
 					k.Occur = occ["tap68"]
 					occ["tap68"]++
@@ -437,7 +445,7 @@ func c10Run(env *Env, pl *C10Plan, collect map[c10Pos][]byte, baseAlloc uint64) 
 			}
 			mr = func(r protocol.Responder) protocol.Responder {
 				return &mutResponder{inner: r, seen: &seen, counts: map[uint8]int{}, collect: func(m uint8, occur int, b []byte) {
-					k := c10Pos{"TO2", "resp", int(m), occur}
+					k := c10Pos{"TO2", "resp", int(m), occur, false}
 					if _, ok := collect[k]; !ok {
 						collect[k] = append([]byte(nil), b...)
 					}
